@@ -64,6 +64,8 @@ var c14Cases = []c14Case{
 	{"module-attribute-follows-rebinding-by-module-function", map[string]string{"m": "tick(\"m\")\ncount := a\nfunc inc() { count = count + 1 }\nfunc get() { return count }"}, "import m\nm.inc()\nm.inc()\nm.count + m.get()", func(a, b int64) int64 { return 2 * (a + 2) }, map[string]int{"m": 1}},
 	{"other-module-sees-rebinding", map[string]string{"m": "tick(\"m\")\ncount := a\nfunc inc() { count = count + b }", "u": "tick(\"u\")\nimport m\nfunc peek() { return m.count }"}, "import m\nimport u\nm.inc()\nu.peek() + m.count", func(a, b int64) int64 { return 2 * (a + b) }, map[string]int{"m": 1, "u": 1}},
 	{"from-import-after-rebinding", map[string]string{"m": "tick(\"m\")\ncount := a\nfunc inc() { count = count + 1 }"}, "import m\nm.inc()\nfrom m import count\ncount", func(a, b int64) int64 { return a + 1 }, map[string]int{"m": 1}},
+	{"spawned-function-imports-an-already-imported-module", map[string]string{"m": "tick(\"m\")\nk := a\nfunc bump() { k = k + 1; return k }\nfunc get() { return k }"}, "import m\nm.bump()\nr := spawn(func() { import m as again\n return again.bump() }).wait()\nr + m.get()", func(a, b int64) int64 { return 2 * (a + 2) }, map[string]int{"m": 1}},
+	{"spawned-function-uses-a-module-imported-by-main", map[string]string{"m": "tick(\"m\")\nk := a\nfunc bump() { k = k + 1; return k }\nfunc get() { return k }"}, "import m\nt := spawn(func() { return m.bump() })\nt.wait() + m.get()", func(a, b int64) int64 { return 2 * (a + 1) }, map[string]int{"m": 1}},
 	{"import-inside-function-twice", map[string]string{"m": "tick(\"m\")\nx := a"}, "f := func() { import m\n return m.x }\nf() + f()", func(a, b int64) int64 { return 2 * a }, map[string]int{"m": 1}},
 }
 
@@ -100,7 +102,7 @@ func HarnessC14ModulesRunOnceSharedSeparate() {
 	if err != nil {
 		return
 	}
-	machine := New(code, WithGlobals(globals), WithImporter(imp))
+	machine := New(code, WithGlobals(globals), WithImporter(imp), WithConcurrency())
 	err = machine.Run(ctx)
 	verifrt.Assert(err == nil, c.name+":runs")
 	if err != nil {
@@ -110,6 +112,8 @@ func HarnessC14ModulesRunOnceSharedSeparate() {
 	tos, _ := machine.TOS()
 	iv, ok := asInt(tos)
 	verifrt.Assert(ok && iv == c.want(a, b), c.name+":value")
+	// an import leaves nothing of the module body's evaluation on the stack
+	verifrt.Assert(machine.sp == 0, c.name+":import-leaves-no-operand-behind")
 	for mod, want := range c.ticks {
 		verifrt.Assert(ticks[mod] == want, c.name+":module-body-runs-exactly-once")
 	}
